@@ -271,6 +271,17 @@ pub fn generate<M: Machine>(property: &str, verif_seed: u64, run: u64, size: Siz
         0
     };
     let scale_exp = if flt == Flt::Int || family == FAM_TINY || family == FAM_HUGE || family == FAM_NEAR_UNDERFLOW { 0 } else { r.range(-20, 20) as i32 };
+    // statistics machines under C08: now and then a scale at which every square underflows to zero
+    // or to a subnormal while the records themselves are ordinary normal numbers ("the statistics
+    // built on it inherit the bound" is about the sum as much as about the sum of squares)
+    let scale_exp = if property == "C08" && M::FAMILY == Family::Mean && flt != Flt::Int && (family < FAM_TINY || family == FAM_ALTERNATING) && r.chance(0.1) {
+        match flt {
+            Flt::F32 => -(r.range(70, 110) as i32),
+            _ => -(r.range(520, 900) as i32),
+        }
+    } else {
+        scale_exp
+    };
     let fam1 = if M::STREAMS == 2 && !exact_data { pick_family(&mut r, false) } else { family };
     let tapes = [
         TapeSpec::Gen { family, seed: r.next_u64(), len: len0 as u32, flt, positive, scale_exp },
